@@ -42,18 +42,21 @@ def has_dot_segment(pp):
     return False
 
 
-def check_case(root, spec, pp, cfg, out, armed):
+def check_case(root, spec, pp, cfg, out, armed, excl=None):
     text = A.render_path(pp)
     fl = FC.cfg_flags(cfg)
-    case = {'tree': [list(e) for e in spec], 'ast': A.to_json(pp), 'pattern': text, 'cfg': cfg}
+    etext = A.render_path(excl) if excl is not None else None
+    xkw = {} if etext is None else {'exclude': etext}
+    case = {'tree': [list(e) for e in spec], 'ast': A.to_json(pp), 'pattern': text, 'cfg': cfg,
+            'excl_ast': A.to_json(excl) if excl is not None else None, 'exclude': etext}
     rp = WP.Path(root)
     model = T.Model(root)
     first_gs = isinstance(pp.segs[0], str)
     try:
         with util.watchdog(20), util.ScandirCounter(10000):
             # 1. Path.glob vs glob.glob
-            pres = list(rp.glob(text, flags=fl))
-            gres = G.glob(text, flags=fl, root_dir=root)
+            pres = list(rp.glob(text, flags=fl, **xkw))
+            gres = G.glob(text, flags=fl, root_dir=root, **xkw)
             out.evaluations += 1
             if set(pres) != {rp / x for x in gres}:
                 d = sorted(str(p) for p in set(pres) ^ {rp / x for x in gres})[0]
@@ -65,7 +68,7 @@ def check_case(root, spec, pp, cfg, out, armed):
                               bucket=('dup',))
                 return
             # 2. rglob vs the reference walker with a prepended globstar
-            rres = list(rp.rglob(text, flags=fl))
+            rres = list(rp.rglob(text, flags=fl, **xkw))
             opts = FC.walker_opts(cfg, extmatchbase=True)
             ref, undecided = W.ref_glob(model, pp, opts)
             must = {rp / p for p, v in ref.items() if v == R.MUST}
@@ -74,7 +77,7 @@ def check_case(root, spec, pp, cfg, out, armed):
             out.evaluations += 1
             kw = FC.ref_kwargs(cfg)
             kw['extmatchbase'] = True
-            if not undecided and not cfg.get('scandotdir') and not has_dot_segment(pp):
+            if not undecided and not cfg.get('scandotdir') and not has_dot_segment(pp) and excl is None:
                 problems = [(p, False, R.MUST) for p in sorted(must - got, key=str)] + [(p, True, R.MUSTNOT) for p in sorted(got - may, key=str)]
                 for p, impl, v in problems:
                     rel = os.path.relpath(str(p), root)
@@ -100,9 +103,9 @@ def check_case(root, spec, pp, cfg, out, armed):
             for rel in entries[:25]:
                 isd = os.path.isdir(os.path.join(root, rel))
                 pure = WP.PurePosixPath(rel)
-                a = pure.globmatch(text, flags=fl & ~G.REALPATH)
-                b = G.globmatch(rel, text, flags=(fl & ~G.REALPATH) | G.FORCEUNIX)
-                f = pure.full_match(text, flags=fl & ~G.REALPATH)
+                a = pure.globmatch(text, flags=fl & ~G.REALPATH, **xkw)
+                b = G.globmatch(rel, text, flags=(fl & ~G.REALPATH) | G.FORCEUNIX, **xkw)
+                f = pure.full_match(text, flags=fl & ~G.REALPATH, **xkw)
                 out.evaluations += 1
                 if bool(a) != bool(b) or bool(f) != bool(b):
                     out.violation(dict(case, problem='PurePath.globmatch/full_match differs from glob.globmatch', name=rel, impl=[bool(a), bool(f)],
@@ -136,13 +139,14 @@ def check_case(root, spec, pp, cfg, out, armed):
                 # user-supplied FORCEWIN / FORCEUNIX are ignored
                 a2 = pure.globmatch(text, flags=(fl & ~G.REALPATH) | G.FORCEWIN) if False else None
             # 4. match(REALPATH) <-> rglob
-            if not first_gs and not has_dot_segment(pp) and not cfg.get('scandotdir') and not undecided:
+            excl_ok = excl is None or not (isinstance(excl.segs[0], str) or has_dot_segment(excl))
+            if not first_gs and not has_dot_segment(pp) and not cfg.get('scandotdir') and not undecided and excl_ok:
                 with util.chdir(root):
                     here = WP.Path('.')
-                    ry = set(here.rglob(text, flags=fl))
+                    ry = set(here.rglob(text, flags=fl, **xkw))
                     for rel in entries[:25]:
                         q = WP.Path(rel)
-                        m = q.match(text, flags=fl | G.REALPATH)
+                        m = q.match(text, flags=fl | G.REALPATH, **xkw)
                         out.evaluations += 1
                         if bool(m) != (q in ry):
                             ids = K.path_classes(pp, rel, kw, bool(m), R.MUSTNOT if m else R.MUST, text)
@@ -172,9 +176,15 @@ def run_pl(desc):
 
     @seed(desc['seed'])
     @util.hyp_settings(desc['n'], shrink=False)
-    @given(FC.st_case(max_segs=3, allow_cycles=False), FC.st_cfg(CFG_KEYS))
-    def test(sp, cfg):
+    @given(FC.st_case(max_segs=3, allow_cycles=False), FC.st_cfg(CFG_KEYS), st.data())
+    def test(sp, cfg, data):
         spec, pp = sp
+        excl = None
+        if data.draw(st.integers(0, 2)) == 0:
+            names = sorted({os.path.basename(e[1]) for e in spec} | {'zz'})
+            excl = data.draw(FC.st_pathpat(2, globstarlong=False, trail=False, names=names))
+            if any(not isinstance(s_, str) and R.seg_nullable(s_) for s_ in excl.segs):
+                excl = None
         # nullable segments and mixed globstar kinds are undecided zones shared with C04
         prev = None
         for s in pp.segs:
@@ -191,7 +201,8 @@ def run_pl(desc):
         follow = FC.follows_links(cfg)
         with FC.built_tree(spec, follow_safe=True) as (root, _removed):
             out.stats['cases'] += 1
-            ok = check_case(root, spec, pp, cfg, out, armed)
+            out.stats['with_exclusion'] += excl is not None
+            ok = check_case(root, spec, pp, cfg, out, armed, excl)
             deep = any(e[1].count('/') >= 1 for e in spec)
             wild = any(isinstance(s, str) or A.has_wild(s) for s in pp.segs)
             if ok and deep and wild:
@@ -250,7 +261,8 @@ def replay(case):
         return (not r.violations), [v[2].get('call') for v in r.violations]
     spec = [tuple(e) for e in case['tree']]
     pp = A.from_json(case['ast'])
+    excl = A.from_json(case['excl_ast']) if case.get('excl_ast') else None
     o = Outcome()
     with FC.built_tree(spec, follow_safe=True) as (root, _r):
-        check_case(root, spec, pp, case['cfg'], o, [])
+        check_case(root, spec, pp, case['cfg'], o, [], excl)
     return (not o.violations), [dict(problem=v[2].get('problem'), name=v[2].get('name')) for v in o.violations]
